@@ -17,12 +17,41 @@
    parse_assertion / _assertion / decrypt_assertions verify every Assertion (plain or decrypted) on its own;
    entity.py _parse_response repeats a failed verification once when the configuration does not insist on
    that signature.  accept_msg = all of them, in that order.
+   Besides verifying and reloading, the receiver has certificates looked up for other purposes (the encryption
+   certificates of the peer for every Response it produces, entity.py 635-665) and its xmlsec1 binary may be
+   replaced by another version: both leave no trace (op Lookup / Engine).  The verifier itself: sigver.py
+   CryptoBackendXmlSec1.validate_signature builds the --verify command line -- confined to the certificate file
+   (--enabled-key-data raw-x509-cert) for every version, --lax-key-search from 1.3 on (_run_xmlsec) --:
+   verify_cmdline; `engine` is xmlsec1's key selection under a command line.
    Signatures are ideal: Section variables with the usual symbolic hypotheses. *)
-From Coq Require Import String List Bool.
+From Coq Require Import String List Bool Arith.
 From Verif Require Import Base.Str.
 Import ListNotations.
 
 Inductive use := Signing | Encryption.
+
+(* ---- the xmlsec1 command line (sigver.py CryptoBackendXmlSec1.validate_signature + _run_xmlsec) as a function of
+   the version the binary reports.  CryptoBackend.version_nums: "1.3.7" -> [1;3;7] (a text that is not dotted
+   numbers -> [0;0;0]); the code compares it with (1, 3) as Python tuples.  What matters for C03 on a --verify
+   command line: is the verifier CONFINED to the certificate file it is handed (--enabled-key-data raw-x509-cert:
+   nothing in the ds:KeyInfo of the message is read), and -- from 1.3 on, where the binary looks keys up strictly --
+   is it told to fall back to the keys it was given (--lax-key-search).  As coded: confined for EVERY version, lax
+   exactly from 1.3 on. ---- *)
+Definition version := list nat.
+
+Fixpoint vlt (a b : version) : bool :=       (* Python: tuple(a) < tuple(b) *)
+  match a, b with
+  | _, [] => false
+  | [], _ :: _ => true
+  | x :: a', y :: b' => if Nat.ltb x y then true else if Nat.ltb y x then false else vlt a' b'
+  end.
+
+Definition ge_1_3 (v : version) : bool := negb (vlt v [1; 3]).
+
+Record cmdline := { key_data_confined : bool; lax_key_search : bool }.
+
+Definition verify_cmdline (v : version) : cmdline :=
+  {| key_data_confined := true; lax_key_search := ge_1_3 v |}.
 
 Section Model.
   Variables key cert msg sig : Type.
@@ -132,6 +161,18 @@ Section Model.
   Definition accept (x : input) : bool * list cert :=
     if detached x then try_detached (candidates x) (m x) (s x) else try_certs (candidates x) (m x) (s x).
 
+  (* ---- the verifier behind `verify`: xmlsec1 version v run with command line cl on certificate file c and a
+     message whose ds:KeyInfo carries the key material `carried` (X509Certificate or bare KeyValue, in document
+     order).  Key selection of the binary: key material of the message is read only when the command line does not
+     confine it to the file, and then it is PREFERRED (the CVE-2021-21239 behaviour); the file's key is used
+     otherwise -- from 1.3 on only under --lax-key-search.  With the command line the code builds this IS `verify c`
+     for every version (Proofs.engine_as_invoked). ---- *)
+  Definition engine (v : version) (cl : cmdline) (carried : list cert) (c : cert) (mm : msg) (ss : sig) : bool :=
+    match (if key_data_confined cl then [] else carried) with
+    | k :: _ => verify k mm ss
+    | [] => if ge_1_3 v && negb (lax_key_search cl) then false else verify c mm ss
+    end.
+
   (* ---- before 2dad6239 (finding C03-F1): any(verify_redirect_signature(..)): a certificate that does not
      load raised ValueError out of the loop => rejection, the remaining certificates were not tried *)
   Fixpoint try_detached_v0 (cs : list cert) (mm : msg) (ss : sig) : bool * list cert :=
@@ -206,15 +247,26 @@ Section Model.
   Inductive op :=
   | Reload (mdx : metadata)       (* reload_metadata / MetadataStore.reload succeeded *)
   | ReloadFailed                  (* reload raised: the previous set is restored *)
-  | Check (qs : list query).      (* one message is verified: its signed elements in the order they are verified *)
+  | Check (qs : list query)       (* one message is verified: its signed elements in the order they are verified *)
+  (* the certificates that entity e publishes for use u are asked for, for another purpose than a verification:
+     Entity._response -> has_encrypt_cert_in_metadata (every Response an IdP produces asks for the ENCRYPTION
+     certificates of the SP), an application that reads MetadataStore.certs(e, descriptor, u), another entity
+     instance in the same process.  Read-only: MetaData.certs computes its answer from the loaded set each time *)
+  | Lookup (e : string) (u : use)
+  (* the xmlsec1 binary is replaced (package upgrade): it reports version v from now on.  CryptoBackendXmlSec1.version
+     asks the binary on every use; certificate selection does not depend on it *)
+  | Engine (v : version).
 
-  (* state = the metadata loaded now; nothing else is remembered between verifications *)
+  (* state = the metadata loaded now; nothing else is remembered between verifications: neither what was
+     verified, nor which certificates were looked up for which use, nor which binary verified *)
   Fixpoint run_ops (cur : metadata) (only : bool) (ops : list op) : list mout :=
     match ops with
     | [] => []
     | Reload m' :: r => run_ops m' only r
     | ReloadFailed :: r => run_ops cur only r
     | Check qs :: r => accept_msg (map (fun q => (q_insist q, at_md cur only q)) qs) :: run_ops cur only r
+    | Lookup _ _ :: r => run_ops cur only r
+    | Engine _ :: r => run_ops cur only r
     end.
 End Model.
 
@@ -253,6 +305,9 @@ Arguments at_md {cert msg sig}.
 Arguments Reload {cert msg sig}.
 Arguments ReloadFailed {cert msg sig}.
 Arguments Check {cert msg sig}.
+Arguments Lookup {cert msg sig}.
+Arguments Engine {cert msg sig}.
+Arguments engine {cert msg sig}.
 Arguments run_ops {cert msg sig}.
 Arguments mout : clear implicits.
 Arguments accept_parts {cert msg sig}.
